@@ -39,6 +39,10 @@ func NewFileStream(path string) (*FileStream, error) {
 }
 
 func (f *FileStream) ReadAll() ([]rune, error) {
+	// the file is not needed after this call (it used to stay open until a finalizer ran)
+	if c, ok := f.reader.(io.Closer); ok {
+		defer c.Close()
+	}
 	var result []rune
 	for {
 		res, isEnd, err := f.read(defaultReadBlock)
